@@ -77,6 +77,7 @@ def coq_sources():
 
 def coq_make(targets=None, timeout=1500):
     """full .vo build (no -vos); returns (ok, log)"""
+    os.makedirs(os.path.join(COQ, 'extract'), exist_ok=True)     # Extract.v writes there; the directory is not tracked by git
     if not os.path.exists(os.path.join(COQ, 'Makefile')) or \
             os.path.getmtime(os.path.join(COQ, 'Makefile')) < os.path.getmtime(os.path.join(COQ, '_CoqProject')):
         r = run(['coq_makefile', '-f', '_CoqProject', '-o', 'Makefile'], cwd=COQ)
